@@ -30,6 +30,9 @@
 //!        -> ok <fee> F=<n|err> B=<ok|err> T=<ok|err> U=<ok|err> L=<bytes of the returned transaction> <nreq> <nout> { <coin> <size> <vsize> }*
 //!              R <- | coin size vsize> TC <- | n> | { MA of every change output }*      (outputs: `none` when no entry point returned anything)
 //!           | err:addout | err:change | panic
+//!   mintout <variant 0|1> <cpb> <mvs> ADDR <namelen> <qty> DAT SREF <coin>     add_mint_asset_and_output (0, explicit coin) /
+//!        add_mint_asset_and_output_min_required_coin (1); then set_fee + build_tx_unsafe on the same builder
+//!        -> ok|err <nout> { <coin> <size> <vsize> }*  (outputs of the released body, whatever the call answered) | ok|err none
 //!   txsize <mts> I <n> { <coin> MA }* O <n> { OUT }* F <fee>     (fee set by hand, no change; mainnet price)
 //!        -> ok|toobig <full_size> <bytes of the transaction build_tx / build_tx_unsafe returned, 0 if none> B=<ok|err> T=<ok|err> U=<ok|err> | err:addout | err:size
 //! Everything the size code does not look at (hash bytes, key bytes, asset-name bytes) is derived from the
@@ -433,6 +436,35 @@ fn exec(toks: &[String]) -> String {
             }
             s
         }
+        "mintout" => {
+            // add_mint_asset_and_output (variant 0, explicit coin) / add_mint_asset_and_output_min_required_coin (variant 1)
+            let variant = p.num(); let cpb = p.num(); let mvs = p.num() as u32;
+            let akind = p.next().to_string(); let alen = p.us();
+            let namelen = p.us(); let qty = p.num(); let dat = p.dat(); let sref = p.sref(); let coin = p.num();
+            let addr = match mk_addr(&akind, alen, 0) { Some(a) => a, None => return BAD.into() };
+            let mut b = TransactionOutputBuilder::new().with_address(&addr);
+            match mk_datum(&dat) { None => return BAD.into(), Some(None) => {}, Some(Some(d)) => {
+                if let Some(h) = d.data_hash() { b = b.with_data_hash(&h); } else { b = b.with_plutus_data(&d.data().unwrap()); } } }
+            match mk_sref(&sref) { None => return BAD.into(), Some(None) => {}, Some(Some(s)) => { b = b.with_script_ref(&s); } }
+            let ob = match b.next() { Ok(x) => x, Err(_) => return BAD.into() };
+            let mut tb = TransactionBuilder::new(&cfg(cpb, mvs, 1_000_000, false));
+            let src = mk_addr("b", 57, 8).unwrap();
+            if tb.add_regular_input(&src, &TransactionInput::new(&TransactionHash::from_bytes(vec![0x3D; 32]).unwrap(), 0), &Value::new(&bn(50_000_000))).is_err() { return BAD.into(); }
+            let script = NativeScript::new_script_pubkey(&ScriptPubkey::new(&kh(9, 1)));
+            let name = match AssetName::new(asset_name(0, namelen)) { Ok(n) => n, Err(_) => return BAD.into() };
+            let amount = Int::new(&bn(qty));
+            let r = if variant == 0 { tb.add_mint_asset_and_output(&script, &name, &amount, &ob, &bn(coin)) }
+                    else { tb.add_mint_asset_and_output_min_required_coin(&script, &name, &amount, &ob) };
+            // whatever the call answered, look at the body the builder releases afterwards
+            tb.set_fee(&bn(2_000_000));
+            let mut s = String::from(if r.is_ok() { "ok" } else { "err" });
+            match tb.build_tx_unsafe() {
+                Err(_) => s.push_str(" none"),
+                Ok(tx) => { let os = tx.body().outputs(); s.push_str(&format!(" {}", os.len()));
+                    for i in 0..os.len() { let (c, sz, v) = sizes(&os.get(i)); s.push_str(&format!(" {} {} {}", c, sz, v)); } }
+            }
+            s
+        }
         "txsize" => {
             let mts = p.num() as u32;
             p.expect("I");
@@ -766,6 +798,60 @@ fn gen(dir: &str) {
             for mts in [full - 1, full, full + 1, full - (al as u64) / 2] {
                 let l = entry_line(cpb, 5000, mts, 0, &ins, &outs, "b", 57, &plain_dat(), &plain_sref(), via, &cols, 150, items, al);
                 emit(&mut out, format!("{}1", &l[..l.len() - 1]));
+            }
+        }
+    }
+    // --- minted-asset outputs: max_value_size below / at / above the value of the single minted asset, coin at the minimum -1/0/+1
+    for k in 0..(40 * scale) {
+        let variant = k % 2;
+        let (akind, alen) = gen_addr(&mut r);
+        let namelen = *r.pick(&[0usize, 1, 23, 24, 32, 32]); let qty = if r.chance(1, 2) { r.u64_edge().max(1) } else { r.range(1, 1000) };
+        let dat = if r.chance(1, 3) { gen_dat(&mut r, false) } else { plain_dat() };
+        let sref = if r.chance(1, 4) { gen_sref(&mut r, false) } else { plain_sref() };
+        let cpb = *r.pick(&[4310u64, 4310, 1, 34482]);
+        let od = OutD { akind: akind.clone(), alen, coin: 0, ma: vec![vec![(namelen, qty)]], dat: dat.clone(), sref: sref.clone() };
+        let vs = mk_output(&od, 0).map(|o| o.amount().to_bytes().len() as u64).unwrap_or(50);
+        let m = min_ada_of(&od, cpb).unwrap_or(1_000_000);
+        let mvs = match r.below(6) { 0 => 40, 1 => vs.saturating_sub(1), 2 => vs, 3 => vs + 4, 4 => vs + 8, _ => 5000 };
+        let coin = match r.below(4) { 0 => m.saturating_sub(1), 1 => m, 2 => m + 1, _ => m + r.below(1_000_000) };
+        emit(&mut out, format!("mintout {} {} {} {} {} {} {} {} {} {} {} {} {} {}", variant, cpb, mvs, akind, alen, namelen, qty,
+             dat.kind, dat.param, dat.len, sref.kind, sref.param, sref.len, coin));
+    }
+    // --- ADA-only (and one-asset) change to an address of every length class, the leftover swept in fine steps from below the
+    //     change output's minimum to above minimum + fee: the calculators price the fake 57-byte address, the fee test sees the
+    //     output BEFORE the fee is taken out -- only the admission of the output actually made protects in between
+    {
+        let classes: Vec<(String, usize)> = vec![("e".into(), 29), ("b".into(), 57), ("y:0".into(), byron_bytes(0).len()),
+            ("p:18446744073709551615:18446744073709551615:18446744073709551615".into(), 59), ("y:33".into(), byron_bytes(33).len()),
+            (format!("m:{}", seed % 1000), 90)];
+        for (ck, cl) in classes.iter() {
+            for with_asset in [false, true] {
+                for via in [0u64, 1] {
+                    if with_asset && via == 1 && !is_thorough() { continue; }
+                    let cpb = 4310u64;
+                    let ma: MaShape = if with_asset { vec![vec![(3usize, 5u64)]] } else { vec![] };
+                    let chg = OutD { akind: ck.clone(), alen: *cl, coin: 0, ma: ma.clone(), dat: plain_dat(), sref: plain_sref() };
+                    let fake = OutD { akind: "b".into(), alen: 57, coin: 0, ma: ma.clone(), dat: plain_dat(), sref: plain_sref() };
+                    let real_min = min_ada_of(&chg, cpb).unwrap_or(1_000_000); let fake_min = min_ada_of(&fake, cpb).unwrap_or(1_000_000);
+                    // the fee of this shape of transaction, from a run with ample change
+                    let probe = entry_line(cpb, 5000, 16384, 0, &vec![(20_000_000, ma.clone())], &vec![], ck, *cl, &plain_dat(), &plain_sref(), via, &vec![], 150, 0, 0);
+                    let res = run_line(&probe);
+                    let fee: u64 = res.split_whitespace().nth(2).and_then(|x| x.parse().ok()).unwrap_or(170_000);
+                    let lo = real_min.min(fake_min).saturating_sub(3000); let hi = real_min.max(fake_min) + fee + 3000;
+                    let width = real_min.max(fake_min) - real_min.min(fake_min);
+                    let step = if is_thorough() { 700 } else { (width / 5).clamp(1500, 12_000) };
+                    // coarse over the whole range, fine inside the two critical windows (around the minimum, around minimum + fee)
+                    let mut pts: Vec<u64> = vec![];
+                    let mut x = lo; while x <= hi { pts.push(x); x += if is_thorough() { 4000 } else { 40_000 }; }
+                    for base in [real_min.min(fake_min), real_min.min(fake_min) + fee] {
+                        let mut y = base.saturating_sub(2 * step); while y <= base + width + 2 * step { pts.push(y); y += step; }
+                        for d in [0u64, 1] { pts.push(base + d); pts.push(base + width + d); pts.push((base + d).saturating_sub(1)); }
+                    }
+                    pts.sort(); pts.dedup();
+                    for l in pts {
+                        emit(&mut out, entry_line(cpb, 5000, 16384, 0, &vec![(l, ma.clone())], &vec![], ck, *cl, &plain_dat(), &plain_sref(), via, &vec![], 150, 0, 0));
+                    }
+                }
             }
         }
     }
